@@ -91,8 +91,52 @@ def runEngine (kind : String) (rules : List CRule) (facts : List (Int × Int)) :
     some s!"ok {showFired e.fireAll.2} - -"
   else none
 
+/-! engine histories: `H <rules> <op> …`, op = `i<a>:<b>` | `u<h>:<a>:<b>` | `x<h>` | `F` | `Z` -/
+def parseHOp (s : String) : Option HOp :=
+  if s = "F" then some .fire
+  else if s = "Z" then some .reset
+  else if s.startsWith "x" then (s.drop 1).toString.toNat?.map .retract
+  else if s.startsWith "i" then
+    match (s.drop 1).toString.splitOn ":" with
+    | [a, b] => do pure (.insert (← a.toInt?) (← b.toInt?))
+    | _ => none
+  else if s.startsWith "u" then
+    match (s.drop 1).toString.splitOn ":" with
+    | [h, a, b] => do pure (.update (← h.toNat?) (← a.toInt?) (← b.toInt?))
+    | _ => none
+  else none
+
+def showHRes (op : HOp) : HRes → String
+  | .handle h => s!"i{h}"
+  | .ok b => (match op with | .retract _ => "x" | _ => "u") ++ (if b then "1" else "0")
+  | .fired names => "F" ++ showFired names
+  | .unit => "z"
+
+def parseFiredNames (s : String) : Option (List Nat) :=
+  if s = "-" then some [] else
+    (s.splitOn ",").foldlM (fun acc t => match t.splitOn "*" with
+      | [n, c] => do
+        let n ← (n.drop 1).toString.toNat?
+        let c ← c.toNat?
+        pure (acc ++ List.replicate c n)
+      | _ => none) []
+
+def parseHRes (s : String) : Option HRes :=
+  if s = "z" then some .unit
+  else if s = "u1" || s = "x1" then some (.ok true)
+  else if s = "u0" || s = "x0" then some (.ok false)
+  else if s.startsWith "i" then (s.drop 1).toString.toNat?.map .handle
+  else if s.startsWith "F" then (parseFiredNames (s.drop 1).toString).map .fired
+  else none
+
 def modelLine (line : String) : String :=
   match tokens line with
+  | "H" :: rules :: ops =>
+    match parseList parseCRule rules, ops.mapM parseHOp with
+    | some rs, some hops =>
+      let e : Inc := { rules := rs }
+      joinSp ("ok" :: (hops.zip (e.htrace hops)).map (fun (o, r) => showHRes o r))
+    | _, _ => "bad-case"
   | "A" :: ts =>
     match parseOps 0 ts with
     | some ops =>
@@ -202,6 +246,28 @@ def oracleLine (line : String) : String :=
           | none => "fail unparsable-observation"
         | [] => "bad-input"
       | none => "bad-input"
+    | "H" :: rules :: ops =>
+      match parseList parseCRule rules, ops.mapM parseHOp with
+      | some rs, some hops =>
+        match tokens o with
+        | ["hang"] => "fail fire_all_bounded:hang:H"
+        | "ok" :: toks =>
+          match toks.mapM parseHRes with
+          | some res =>
+            let isNoLoop := isNoLoopOf rs
+            if histOk isNoLoop incBound [] 1 hops res then
+              let fires := res.filterMap (fun r => match r with | .fired ns => some ns | _ => none)
+              let all := fires.foldl (· ++ ·) []
+              joinSp (["ok", "engine_H", s!"fire_calls_{fires.length}"]
+                ++ (if fires.any (fun ns => ns.length ≥ incBound) then ["bound_hit"] else ["quiescent"])
+                ++ (if fires.dropLast.any (fun ns => ns.length ≥ incBound) then ["fire_after_bound_hit"] else [])
+                ++ (if all.any isNoLoop then ["no_loop_fired"] else [])
+                ++ (if hops.any (· == .reset) then ["reset"] else [])
+                ++ (if all.length > 0 then ["nontrivial"] else []))
+            else s!"fail {histBad isNoLoop incBound 0 [] 1 hops res}"
+          | none => "fail unparsable-observation"
+        | _ => if o.trimAscii.toString.startsWith "panic" then "fail fire_all_returns:panic:H" else "fail unparsable-observation"
+      | _, _ => "bad-input"
     | ["E", kind, rules, _] =>
       match parseList parseCRule rules with
       | some rs =>
